@@ -11,6 +11,7 @@ META = {
     "level": "Decides the structural clauses: what is removed = (listed distfiles ∩ targets) − (installed ∪ existing ∪ excluded ∪ fetch-restricted), then the file filters; --installed alone fills the installed set from ALL installed repos; --exists alone and --fetch-restricted alone each force the full tree scan, with or without targets; tree packages' distfiles are read USE-unconditionally; the age and size filters each test their own attribute against their own limit; --pretend removes nothing. Does NOT decide the name-based target selection heuristics.",
     "note": "",
 }
+META["technique"] += "; " + 'generic pack G on the anchored files (optional-flag shift, closures outliving a loop iteration, single-pass iterables consumed twice, %-templates built from data, in-place writes to class-level / memoised objects, generators mutating what they yielded, memo keys that are projections)'
 MOD = "pkgcore.scripts.pclean"
 
 
